@@ -59,6 +59,12 @@ class Contact(object):
         ''' One round of peer behaviour at the current level.  :return: True if something was sent. '''
         if self.level == 'silent' or self.peer_sock.closed:
             return False
+        if self.level == 'frozen':
+            # a hung peer: says nothing more, but its socket follows when the endpoint closes
+            if self.real_sock.closed:
+                self.peer_sock.close()
+                return True
+            return False
         did = False
         msgs = self.wire()
         real_ch = any(m['t'] == 'CH' for m in msgs)
@@ -94,11 +100,13 @@ class Contact(object):
 
 
 class AgentWorld(object):
-    def __init__(self, specs):
-        ''' specs: list of [state, passive] '''
+    def __init__(self, specs, idle_time=0, hang=()):
+        ''' specs: list of [state, passive]; hang: indices of contacts whose peer stops taking part (connection
+        stays open, nothing is sent any more) from the moment the action is applied '''
         simloop.reset()
         dbus.RECORDER.reset()
-        self.cfg = tw.make_config('dtn://real/')
+        self.hang = set(hang)
+        self.cfg = tw.make_config('dtn://real/', idle_time=idle_time)
         self.end = tw.Endpoint('A', self.cfg)
         self.stops = []
         self.end.agent.set_on_stop(lambda: self.stops.append(simloop.CLOCK.now_ms))
@@ -173,7 +181,19 @@ class AgentWorld(object):
 
     def release(self):
         for con in self.contacts:
-            con.level = 'full'
+            con.level = 'frozen' if con.index in self.hang else 'full'
+        return self.pump()
+
+    def advance(self, ms):
+        ''' Let virtual time pass, firing the endpoint's timers in order. '''
+        target = simloop.CLOCK.now_ms + ms
+        while True:
+            due = self.end.ctx.next_due()
+            if due is None or due > target:
+                break
+            simloop.advance_to(max(due, simloop.CLOCK.now_ms))
+            self.pump()
+        simloop.advance_to(target)
         return self.pump()
 
     def escapes(self):
